@@ -8,6 +8,7 @@ pub mod shard;
 pub mod shard_ops;
 pub mod shard_stream;
 pub mod manager;
+pub mod pointer;
 pub mod deduper;
 pub mod session;
 pub mod session_faults;
@@ -44,6 +45,7 @@ pub fn run(suite: &str, ctx: &mut Ctx) -> bool {
         "xorb" => xorb::run_roundtrip(ctx),
         "xorb_validate" => xorb::run_validate(ctx),
         "xorb_validate-child" => xorb::run_validate_child(ctx),
+        "pointer" => pointer::run(ctx),
         "shard_stream" => shard_stream::run(ctx),
         "shard_stream-child" => shard_stream::run_child(ctx),
         "crash" => crash::run_parent(ctx),
